@@ -109,6 +109,11 @@ package kgo
 //@ func (fs Fetches) EachPartition(fn func(FetchTopicPartition))
 //@   prop C38
 //@   nopanic
+//   coverage: no fetch, topic or partition is skipped - every iteration over the fetches walks that fetch's topics,
+//   every iteration over the topics walks that topic's partitions, every iteration over the partitions calls fn
+//@   loop 0 backedge [every-fetch-is-walked] entered(1)
+//@   loop 1 backedge [every-topic-is-walked] entered(2)
+//@   loop 2 backedge [every-partition-is-handed-to-fn] reached($call0)
 //@   site call fn#0 assert [each-partition-under-its-topic] arg0.Topic == topic.Topic && arg0.FetchPartition.Partition == topic.Partitions[i].Partition && arg0.FetchPartition.Records == topic.Partitions[i].Records && arg0.FetchPartition.Err == topic.Partitions[i].Err
 
 // a fetch is kept exactly when some partition has an error or a record
@@ -132,3 +137,30 @@ package kgo
 //@   nopanic
 //@   ensures [appends-what-it-is-given] len(*errs) == old(len(*errs)) + 1 && (*errs)[len(*errs)-1].Topic == t && (*errs)[len(*errs)-1].Partition == p && (*errs)[len(*errs)-1].Err == err
 //@   ensures [keeps-the-earlier-ones] forall k in 0..old(len(*errs)) :: (*errs)[k] == old((*errs)[k])
+
+// NumRecords and Records are folds over EachPartition (whose coverage is stated above): the count grows by exactly
+// len(p.FetchPartition.Records) for EVERY partition handed to the callback - errored or not -, Records appends exactly p.Records,
+// in order, and both walk the whole Fetches.
+//@ func (fs Fetches) NumRecords() (n int)
+//@   prop C38
+//@   site call EachPartition#0 assert [over-all-fetches] arg0 == fs
+//@   ensures [counted-through-EachPartition] reached($EachPartition0)
+//@ func (fs Fetches) NumRecords$1(p FetchTopicPartition)
+//@   prop C38
+//@   nopanic
+//@   ensures [adds-the-record-count-of-the-partition] *n == old(*n) + len(p.FetchPartition.Records)
+//@ func (fs Fetches) Records() (rs []*Record)
+//@   prop C38
+//@   site call EachPartition#0 assert [over-all-fetches] arg0 == fs
+//@   ensures [collected-through-EachPartition] reached($EachPartition0)
+//@ func (fs Fetches) Records$1(p FetchTopicPartition)
+//@   prop C38
+//@   ensures [grows-by-the-record-count] len(*rs) == old(len(*rs)) + len(p.FetchPartition.Records)
+//@   ensures [appends-the-records-in-order] forall k in 0..len(p.FetchPartition.Records) :: (*rs)[old(len(*rs)) + k] == old(p.FetchPartition.Records[k])
+//@   ensures [keeps-the-earlier-ones] forall k in 0..old(len(*rs)) :: (*rs)[k] == old((*rs)[k])
+
+// EachTopic (several fetches): a topic's ID, once seen non-zero in any fetch, is never replaced by the zero ID of a
+// later fetch of the same topic (the client's injected error fetches carry no ID).
+//@ func (fs Fetches) EachTopic(fn func(FetchTopic))
+//@   prop C38
+//@   site mapupdate [16]byte#0 assert [only-a-real-id-is-recorded] mapkey == topic.Topic && val == topic.TopicID && !iszero(val)
